@@ -771,7 +771,7 @@ func runRec(c *core.Ctx) []core.Obligation {
 			}
 			if f := staticCallee(call.Common()); f != nil && (f.Name() == "Parse" || f.Name() == "Unmarshal") && f.Pkg != nil && f.Pkg.Pkg.Name() == "json" && f.Signature.Recv() == nil {
 				nDropD++
-				b.addP([]string{"C06", "C02"}, core.Violation, "state-dropped:"+shortName(fn), c.InstrPos(call), fmt.Sprintf("%s re-enters %s, which starts from a fresh decoder{}: the nesting depth counted so far is lost at every interface that holds a pointer, so the limit is not enforced across it (a target whose interface field points back to the target follows {\"F\":{\"F\":… as deep as the input goes, until the stack is exhausted) and the whole remaining input is re-scanned at each level", shortName(fn), f.Name()))
+				b.addP([]string{"C06", "C02", "C05"}, core.Violation, "state-dropped:"+shortName(fn), c.InstrPos(call), fmt.Sprintf("%s re-enters %s, which starts from a fresh decoder{}: the nesting depth counted so far is lost at every interface that holds a pointer, so the limit is not enforced across it (a target whose interface field points back to the target follows {\"F\":{\"F\":… as deep as the input goes, until the stack is exhausted) and the whole remaining input is re-scanned at each level", shortName(fn), f.Name()))
 			}
 		}
 	}
